@@ -922,6 +922,12 @@ class Gen(object):
             seen = set()
             for _ in range(self.i(0, 2)):
                 k = self.d(st.one_of(consts.ints(), consts.strs(2)))
+                if self.literal_pool is not None and self.p(0.7):
+                    # keys of a mapping pattern are plain expressions (not MatchValue): repeated pool literals are hoisting candidates
+                    cand = [v for v in self.literal_pool if type(v) in (str, bytes)]
+                    if cand:
+                        k = self.choice(cand)
+                        self.features.add('pool_literal_mapping_key')
                 if repr(k) in seen:
                     continue
                 seen.add(repr(k))
